@@ -27,7 +27,9 @@ theorem absW_reorder (w : World) (s : Sess) (o : List Nat) (hs : w.sess = some s
 
 theorem WInv.reorder {w : World} (hw : WInv w) (s : Sess) (o : List Nat) (hs : w.sess = some s) :
     WInv ⟨w.disk, some { s with cache := { s.cache with order := o } }⟩ := by
-  refine ⟨hw.disk, ?_, ?_⟩
+  refine ⟨hw.disk, ?_, ?_, ?_⟩
+  rotate_left 2
+  · intro s' hs' hm hi he; cases hs'; exact hw.memStale s hs hm hi he
   · intro s' hs'; cases hs'; exact (hw.sess s hs).reorder o
   · intro hx hst
     apply hw.index hx
@@ -175,7 +177,7 @@ theorem commit_mem (d : Disk) (s : Sess) (it : Item) (c : Cache) (hw : WInv ⟨d
   subst hc
   unfold commitAdd
   simp only [hl, hp, Bool.or_false, Bool.false_eq_true, if_false]
-  refine ⟨⟨hw.disk, ?_, ?_⟩, ?_⟩
+  refine ⟨⟨hw.disk, ?_, ?_, ?_⟩, ?_⟩
   · intro s' hs'; cases hs'
     refine ⟨by simp [hne, hm], ?_, ?_, ?_, by simp [hm], by simp [hm], by simp [hm]⟩
     · intro k x hx
@@ -214,6 +216,9 @@ theorem commit_mem (d : Disk) (s : Sess) (it : Item) (c : Cache) (hw : WInv ⟨d
           exact ⟨hok.symm, (hb b hix).symm⟩
   · intro hx hst
     exact hw.index hx (by intro s' hs' hl'; cases hs'; rw [hl] at hl'; cases hl')
+  · intro s' hs' _ hi _; cases hs'
+    simp only [Option.some.injEq] at hi ⊢
+    rw [hi]; simp
   · unfold specAddSuccess absW absSess absSchema
     simp only [hm, if_true, Option.map_some, hl]
     cases hent : s.cache.entries with
@@ -247,7 +252,7 @@ theorem commit_file (d : Disk) (s : Sess) (it : Item) (c : Cache) (hw : WInv ⟨
     have hfs' := hfs hl
     unfold commitAdd
     simp only [hl, hp, Bool.true_or, Bool.false_eq_true, if_false, if_true, hix]
-    refine ⟨⟨⟨?_, ?_⟩, ?_, ?_⟩, ?_⟩
+    refine ⟨⟨⟨?_, ?_⟩, ?_, ?_, MemStale.of_not_mem hm⟩, ?_⟩
     · intro hpres; rw [← hlp, hl] at hpres; cases hpres
     · intro x hx
       simp only [List.mem_append, List.mem_singleton] at hx
@@ -284,7 +289,7 @@ theorem commit_file (d : Disk) (s : Sess) (it : Item) (c : Cache) (hw : WInv ⟨
     have hpres : d.present = false := by rw [← hlp]; exact hl'
     unfold commitAdd
     simp only [hl', hp, Bool.false_or, if_true, hix, hnext]
-    refine ⟨⟨⟨by simp, ?_⟩, ?_, ?_⟩, ?_⟩
+    refine ⟨⟨⟨by simp, ?_⟩, ?_, ?_, MemStale.of_not_mem hm⟩, ?_⟩
     · intro x hx; simp at hx; subst hx; simp
     · intro s' hs'; cases hs'
       refine ⟨by simp [hnev, hs.noEvict], ?_, by simp [hm], by simp [hm], by simp, by simp, ?_⟩
